@@ -176,7 +176,7 @@ func runC10(r *Run) {
 		K, pairN = 4, 21
 	}
 	docs := makeDocs(append(Docs(K, stdScalars, stdKeys), mustDoc(`{"a":{"a":1,"b":1},"b":1}`, "float64"), mustDoc(`[{"a":[1,2],"b":1},{"a":1,"b":2}]`, "float64"),
-		mustDoc(`{"a":[{"a":1}],"b":[1,"x"]}`, "float64")))
+		mustDoc(`{"a":[{"a":1}],"b":[1,"x"]}`, "float64"), mustDoc(`{"a":[1,"x"],"b":2}`, "float64"), mustDoc(`[[1,"x"],["x",1],{"a":["x",1]}]`, "float64")))
 	conds := condPool(pairN)
 	prefixes := c10Prefixes()
 	r.Bound("max_doc_nodes", K)
